@@ -448,6 +448,17 @@ pub fn run_c05(ctx: &mut Ctx, _replay: Option<&[String]>) {
             ctx.emit(&format!("c05 v {} {} {}", ty, inp, msgs_str(&m)), &var_i8(ty, inp, &m), true, &["var-degree-overflow-boundary"]);
         }
     }
+    // degrees 255 ... 257 and 511 ... 513 with messages that nearly cancel (the total stays small, nothing saturates) and a strong channel LLR
+    // (117 ... 127): the degree must not be taken modulo 256 anywhere (degree-one clipping is for degree ONE)
+    for ty in I8_TYPES {
+        for deg in [255usize, 256, 257, 511, 512, 513] {
+            let inp = (117 + rng.below(11)) as i8 * if rng.chance(1, 2) { -1 } else { 1 };
+            let a = 1 + rng.below(60) as i8;
+            let mut m: Vec<(usize, i8)> = (0..deg).map(|i| (i, if i % 2 == 0 { a } else { -a })).collect();
+            if deg % 2 == 1 { m[deg - 1].1 = -(rng.below(5) as i8); }
+            ctx.emit(&format!("c05 v {} {} {}", ty, inp, msgs_str(&m)), &var_i8(ty, inp, &m), true, &["var-degree-255..513-near-cancelling"]);
+        }
+    }
     // layered primitive: states inside the reachable envelope |var| <= 127*(deg+1), incl. the boundary
     for k in 0..ctx.scale(40_000, 800_000) {
         let ty = I8_TYPES[k % 16];
